@@ -23,6 +23,8 @@ enum Re {
     Rep(usize, usize, Box<Re>),
     /// precedence inside a token: `choice(prec(p1, r1), prec(p2, r2), …)` (only at the top of a token)
     Alts(Vec<(i32, Re)>),
+    /// Unicode property class `\\p{NAME}` (L, Lu, Ll, Nd, P)
+    Prop(&'static str),
 }
 
 fn esc(c: u32) -> String {
@@ -41,11 +43,12 @@ impl Re {
             Re::Plus(a) => a.nullable(),
             Re::Rep(m, _, a) => *m == 0 || a.nullable(),
             Re::Alts(v) => v.iter().any(|(_, r)| r.nullable()),
+            Re::Prop(_) => false,
         }
     }
     fn atom(&self) -> String {
         match self {
-            Re::Cls(..) => self.pattern(),
+            Re::Cls(..) | Re::Prop(_) => self.pattern(),
             Re::Lit(v) if v.len() == 1 => self.pattern(),
             _ => format!("({})", self.pattern()),
         }
@@ -69,6 +72,7 @@ impl Re {
             Re::Opt(a) => format!("{}?", a.atom()),
             Re::Rep(m, n, a) => format!("{}{{{m},{n}}}", a.atom()),
             Re::Alts(v) => v.iter().map(|(_, r)| r.pattern()).collect::<Vec<_>>().join("|"),
+            Re::Prop(n) => format!("\\p{{{n}}}"),
         }
     }
     fn seq_part(&self) -> String {
@@ -85,6 +89,7 @@ impl Re {
             Re::Opt(a) => format!("O({})", a.ser()),
             Re::Rep(m, n, a) => format!("R{m}.{n}({})", a.ser()),
             Re::Alts(v) => format!("Z({})", v.iter().map(|(p, r)| format!("{p}~{}", r.ser())).collect::<Vec<_>>().join("/")),
+            Re::Prop(n) => format!("U{n}."),
         }
     }
 }
@@ -132,6 +137,13 @@ fn parse_re(s: &[u8], i: &mut usize) -> Re {
             let a = parse_re(s, i);
             *i += 1;
             match c { b'K' => Re::Star(Box::new(a)), b'P' => Re::Plus(Box::new(a)), _ => Re::Opt(Box::new(a)) }
+        }
+        b'U' => {
+            let st = *i;
+            while s[*i] != b'.' { *i += 1; }
+            let name = std::str::from_utf8(&s[st..*i]).unwrap();
+            *i += 1;
+            Re::Prop(match name { "L" => "L", "Lu" => "Lu", "Ll" => "Ll", "Nd" => "Nd", _ => "P" })
         }
         b'Z' => {
             *i += 1;
@@ -361,6 +373,21 @@ fn rand_set(rng: &mut Rng) -> TokSet {
             toks.insert(at, Tok { prec: if prec_mode == 0 { 0 } else { *rng.pick(&[0, 0, 1]) }, is_string: false, re, immediate: false, ci: false });
         }
     }
+    // Unicode property classes `\\p{L}`, `\\p{Lu}`, `\\p{Ll}`, `\\p{Nd}`, `\\p{P}` (alone, repeated, after / before a literal)
+    if !with_word && rng.chance(1, 5) {
+        for _ in 0..rng.range(1, 2) {
+            let p = Re::Prop(*rng.pick(&["L", "Lu", "Ll", "Nd", "P"]));
+            let re = match rng.below(4) {
+                0 => Re::Plus(Box::new(p)),
+                1 => Re::Seq(Box::new(Re::Lit(vec![pick_sym(rng, &focus)])), Box::new(p)),
+                2 => Re::Seq(Box::new(p), Box::new(Re::Opt(Box::new(Re::Lit(vec![pick_sym(rng, &focus)]))))),
+                _ => p,
+            };
+            if toks.iter().any(|t| t.re.ser() == re.ser()) { continue; }
+            let at = rng.below(toks.len() + 1);
+            toks.insert(at, Tok { prec: if prec_mode == 0 { 0 } else { *rng.pick(&[0, 0, 1]) }, is_string: false, re, immediate: false, ci: false });
+        }
+    }
     // token identity: the SAME regex source with different flags (case-insensitive `i`) are different tokens
     if !with_word && rng.chance(1, 4) {
         let has_letter = |t: &Tok| { let s = t.re.ser(); ["61", "62", "63", "64", "e9", "3bb"].iter().any(|h| s.contains(h)) };
@@ -531,7 +558,7 @@ fn keyword_sets(parser_c: &str, ts: &TokSet) -> (Vec<usize>, Vec<usize>) {
 // construction per token set, lex-state merging and minimisation.
 
 #[derive(Clone, Debug)]
-struct ModeSet { extras: usize, follow: Option<(usize, usize)>, word: Option<usize>, reserved: Vec<usize>, toks: Vec<Tok>, masks: Vec<u8> }
+struct ModeSet { extras: usize, follow: Option<(usize, usize)>, word: Option<usize>, reserved: Vec<usize>, reserved_b: Option<Vec<usize>>, toks: Vec<Tok>, masks: Vec<u8> }
 
 impl ModeSet {
     fn marks(&self) -> (usize, usize) { (self.toks.len() - 2, self.toks.len() - 1) }
@@ -539,6 +566,7 @@ impl ModeSet {
         let mut s = format!("mx{}f{}w{}r{}", self.extras, self.follow.map(|(a, b)| format!("{a}.{b}")).unwrap_or("-".into()),
             self.word.map(|w| w.to_string()).unwrap_or("-".into()),
             if self.reserved.is_empty() { "-".to_string() } else { self.reserved.iter().map(|k| k.to_string()).collect::<Vec<_>>().join(".") });
+        if let Some(rb) = &self.reserved_b { s.push_str(&format!("q{}", if rb.is_empty() { "-".to_string() } else { rb.iter().map(|k| k.to_string()).collect::<Vec<_>>().join(".") })); }
         for (t, m) in self.toks.iter().zip(&self.masks) { s.push_str(&format!(";{},{},{},{}", t.prec, t.is_string as u8 + 4 * t.ci as u8, m, t.re.ser())); }
         s
     }
@@ -551,7 +579,9 @@ impl ModeSet {
         let extras = h[2..fi].parse().unwrap_or(0);
         let follow = { let f = &h[fi + 1..wi]; if f == "-" { None } else { let mut it = f.split('.'); Some((it.next().unwrap().parse().unwrap(), it.next().unwrap().parse().unwrap())) } };
         let word: Option<usize> = if wi < h.len() { h[wi + 1..ri].parse().ok() } else { None };
-        let reserved: Vec<usize> = if ri < h.len() { h[ri + 1..].split('.').filter_map(|x| x.parse().ok()).collect() } else { vec![] };
+        let qi = h.find('q').unwrap_or(h.len());
+        let reserved: Vec<usize> = if ri < h.len() { h[ri + 1..qi].split('.').filter_map(|x| x.parse().ok()).collect() } else { vec![] };
+        let reserved_b: Option<Vec<usize>> = if qi < h.len() { Some(h[qi + 1..].split('.').filter_map(|x| x.parse().ok()).collect()) } else { None };
         let mut toks = Vec::new();
         let mut masks = Vec::new();
         for p in parts {
@@ -563,7 +593,7 @@ impl ModeSet {
             let mut i = 0;
             toks.push(Tok { prec, is_string, re: parse_re(f.next().unwrap().as_bytes(), &mut i), immediate: false, ci: flags & 4 == 4 });
         }
-        ModeSet { extras, follow, word, reserved, toks, masks }
+        ModeSet { extras, follow, word, reserved, reserved_b, toks, masks }
     }
     fn grammar(&self, name: &str) -> String {
         let sym = |i: usize| json!({"type":"SYMBOL","name":format!("t{i}")});
@@ -574,7 +604,11 @@ impl ModeSet {
             let mut items: Vec<Value> = Vec::new();
             for i in 0..self.toks.len() - 2 {
                 if self.masks[i] & (1 << mode) == 0 { continue; }
-                items.push(sym(i));
+                if mode == 1 && self.reserved_b.is_some() && self.word == Some(i) {
+                    items.push(json!({"type":"RESERVED","content":sym(i),"context_name":"alt"}));
+                } else {
+                    items.push(sym(i));
+                }
                 if let Some((x, y)) = self.follow { if x == i { items.push(json!({"type":"SEQ","members":[sym(x), sym(y)]})); } }
             }
             rules.insert((*rule).into(), json!({"type":"SEQ","members":[sym(*mark), {"type":"REPEAT","content":{"type":"CHOICE","members":items}}]}));
@@ -590,7 +624,11 @@ impl ModeSet {
         g2["rules"] = Value::Object(ordered);
         if let Some(w) = self.word { g2["word"] = json!(format!("t{w}")); }
         if !self.reserved.is_empty() {
-            g2["reserved"] = json!({"global": self.reserved.iter().map(|k| json!({"type":"SYMBOL","name":format!("t{k}")})).collect::<Vec<_>>()});
+            let set = |v: &Vec<usize>| v.iter().map(|k| json!({"type":"SYMBOL","name":format!("t{k}")})).collect::<Vec<_>>();
+            g2["reserved"] = match &self.reserved_b {
+                Some(rb) => json!({"global": set(&self.reserved), "alt": set(rb)}),
+                None => json!({"global": set(&self.reserved)}),
+            };
         }
         serde_json::to_string(&g2).unwrap()
     }
@@ -615,6 +653,7 @@ fn sample_re(re: &Re, rng: &mut Rng, out: &mut Vec<u32>) {
         Re::Opt(a) => if rng.chance(1, 2) { sample_re(a, rng, out) },
         Re::Rep(m, n, a) => for _ in 0..rng.range(*m, *n) { sample_re(a, rng, out) },
         Re::Alts(v) => { let k = rng.below(v.len()); sample_re(&v[k].1, rng, out) }
+        Re::Prop(n) => out.push(match *n { "L" => *rng.pick(&[0x61, 0x42, 0xe9, 0x39b]), "Lu" => *rng.pick(&[0x41, 0x42, 0xc9, 0x39b]), "Ll" => *rng.pick(&[0x61, 0x62, 0xe9, 0x3bb]), "Nd" => *rng.pick(&[0x30, 0x31]), _ => *rng.pick(&[0x28, 0x29, 0x2d, 0x3b, 0x2c]) }),
     }
 }
 
@@ -668,6 +707,7 @@ fn rand_mode_set(rng: &mut Rng) -> ModeSet {
     // word token + keywords whose validity differs from the word token's, optionally reserved words
     let mut word = None;
     let mut reserved = Vec::new();
+    let mut reserved_b: Option<Vec<usize>> = None;
     if rng.chance(1, 2) {
         let wre = Re::Seq(Box::new(Re::Cls(false, vec![(0x61, 0x64), (0xe9, 0xe9), (0x3bb, 0x3bb)])),
                           Box::new(Re::Star(Box::new(Re::Cls(false, vec![(0x61, 0x64), (0x30, 0x31), (0xe9, 0xe9), (0x3bb, 0x3bb)])))));
@@ -682,13 +722,17 @@ fn rand_mode_set(rng: &mut Rng) -> ModeSet {
         word = Some(toks.len());
         toks.push(Tok { prec: 0, is_string: false, re: wre, immediate: false, ci: false });
         masks.push(*rng.pick(&[1u8, 2, 3, 3]));
-        if rng.chance(1, 2) { for k in kw_idx { if rng.chance(2, 3) { reserved.push(k); } } }
+        if rng.chance(1, 2) { for k in &kw_idx { if rng.chance(2, 3) { reserved.push(*k); } } }
+        // `reserved(wordset, rule)`: in mode B the word token is used under another reserved-word set
+        if !reserved.is_empty() && masks[word.unwrap()] & 2 != 0 && rng.chance(1, 2) {
+            reserved_b = Some(kw_idx.iter().copied().filter(|_| rng.chance(1, 2)).collect());
+        }
     }
     toks.push(Tok { prec: 0, is_string: true, re: Re::Lit(vec![0x28]), immediate: false, ci: false });
     toks.push(Tok { prec: 0, is_string: true, re: Re::Lit(vec![0x29]), immediate: false, ci: false });
     masks.push(3);
     masks.push(3);
-    ModeSet { extras: base.extras, follow, word, reserved, toks, masks }
+    ModeSet { extras: base.extras, follow, word, reserved, reserved_b, toks, masks }
 }
 
 /// Every lexing step of the real parser, from the parse log: `tok:pos:end:state` where `pos` is the
@@ -885,6 +929,7 @@ fn rand_large_class_set(rng: &mut Rng) -> (TokSet, Vec<u32>) {
             Re::Star(a) | Re::Plus(a) | Re::Opt(a) | Re::Rep(_, _, a) => bounds(a, out),
             Re::Lit(_) => {}
             Re::Alts(v) => for (_, r) in v { bounds(r, out); },
+            Re::Prop(_) => {}
         }
     }
     for t in &toks { bounds(&t.re, &mut alpha); }
@@ -968,7 +1013,7 @@ fn main() {
                 for c in syms { s.push(*c); rec(s, left - 1, syms, f); s.pop(); }
             }
             rec(&mut s, full_len, &enum_syms, f);
-            if ts.toks.iter().any(|t| t.ci) {
+            if ts.toks.iter().any(|t| t.ci || t.re.ser().contains('U')) {
                 // case-insensitive tokens: upper-case letters (and mixed case) in the enumerated alphabet
                 let upper: Vec<u32> = vec![0x41, 0x42, 0x61, 0x62, 0xc9, 0xe9, 0x39b, 0x30, 0x20];
                 let mut s2: Vec<u32> = Vec::new();
